@@ -129,7 +129,9 @@ func (f *Fosite) authorizeRequestParametersFromOpenIDConnectRequest(ctx context.
 		// Do not re-process already enhanced errors
 		var e *jwt.ValidationError
 		if errors.As(err, &e) {
-			if e.Inner != nil {
+			// The key function reports its own OAuth 2.0 errors through Inner; anything else (for example the plain "Token is
+			// expired" raised while the claims are validated) is an invalid request object, not an unrecognizable server error.
+			if rfcErr := new(RFC6749Error); e.Inner != nil && errors.As(e.Inner, &rfcErr) {
 				return e.Inner
 			}
 			return errorsx.WithStack(ErrInvalidRequestObject.WithHint("Unable to verify the request object's signature.").WithWrap(err).WithDebug(err.Error()))
